@@ -149,6 +149,32 @@ def sigwrapped_twice(a):
     return a
 
 
+import functools as _functools
+
+
+@_functools.lru_cache(maxsize=None)
+def cached(a, b=None):
+    """the module attribute is a C-implemented wrapper object (not a function) that carries __wrapped__"""
+    return a
+
+
+class counting:  # noqa: N801
+    """a class-based decorator: its instances are callable objects, made to look like the function with update_wrapper"""
+    def __init__(self, f):
+        self.f = f
+        self.calls = 0
+        _functools.update_wrapper(self, f)
+
+    def __call__(self, *a, **k):
+        self.calls += 1
+        return self.f(*a, **k)
+
+
+@counting
+def counted(a, b=None):
+    return a
+
+
 def lookup(module, qualname, attr=None):
     """parameters named like the keys of an encoded type"""
     return module
@@ -156,7 +182,7 @@ def lookup(module, qualname, attr=None):
 
 FUNCS = {
     "sigwrapped": sigwrapped.__wrapped__, "sigwrapped_twice": sigwrapped_twice.__wrapped__.__wrapped__,
-    "lookup": lookup,
+    "lookup": lookup, "cached": cached.__wrapped__, "counted": counted.__wrapped__,
     "plain": plain, "kwonly": kwonly, "posonly": posonly, "gen": gen, "gen_none": gen_none, "coro": coro,
     "wrapped": wrapped.__wrapped__, "wrapped_twice": wrapped_twice.__wrapped__.__wrapped__,
     "K.method": K.method, "K.cmeth": K.cmeth.__func__, "K.smeth": K.smeth, "K.prop": K.__dict__["prop"].fget,
